@@ -1,6 +1,6 @@
-\* exhaustive (quick): 3 temperatures, 6 kind pairs x 2 constructions, every behaviour of up to 4 calls
-CONSTANTS NT = 3  NV = 1  MaxLevel = 4
-  KindChoices <- McKindsQuick  TempChoices <- McTempsTwo  LinkPairs <- McLinks
+\* exhaustive (quick): 3 temperatures, 6 kind pairs x 1 construction, every behaviour of up to 3 calls
+CONSTANTS NT = 3  NV = 1  MaxLevel = 3
+  KindChoices <- McKindsQuick  TempChoices <- McTempsOne  LinkPairs <- McLinks  RampSteps <- McRamp
 INIT Init
 NEXT NextB
 CONSTRAINT Bound
@@ -16,6 +16,9 @@ INVARIANT ReadBack
 INVARIANT LinkEquality
 INVARIANT FluidsAndCustomKeepDimensions
 INVARIANT InertRefusesOffInput
+INVARIANT Composes
+INVARIANT CopyIsFaithful
 PROPERTY RefusalsChangeNothing
 PROPERTY ConstructionFixed
+PROPERTY CopyLeavesOthers
 CHECK_DEADLOCK FALSE
